@@ -38,7 +38,7 @@ def gen_example(rnd, idx):
 
 GEN = {"task": plangen.gen_task, "sync": plangen.gen_sync, "cyc": plangen.gen_cyc, "sx": plangen.gen_sx, "sv": plangen.gen_sv, "rr": plangen.gen_rr, "tl": plangen.gen_tl, "rules": plangen.gen_rules, "examples": gen_example}
 # which families each property runs (the others' failures are counted, not reported)
-FAMILIES = {"C01": ["sv", "rr", "rules", "sx", "sync"], "C02": ["sv", "rr", "rules", "sx", "cyc", "sync", "task"], "C03": ["rules", "sv", "cyc", "task", "examples"], "C04": ["sv", "sx", "sync", "task", "examples"], "C05": ["rr", "sx", "task", "examples"],
+FAMILIES = {"C01": ["sv", "rr", "rules", "sx", "sync", "tl"], "C02": ["sv", "rr", "rules", "sx", "cyc", "sync", "task"], "C03": ["rules", "sv", "cyc", "task", "examples"], "C04": ["sv", "sx", "sync", "task", "examples"], "C05": ["rr", "sx", "task", "examples"],
             "C06": ["tl", "sv", "rr", "sx", "sync", "task", "examples"],
             "C16": ["sv", "rr", "tl", "rules", "sx", "cyc", "sync", "task"]}
 
@@ -426,6 +426,29 @@ def sx_truth(spec, unify):
     return "sat" if r == z3.sat else ("unsat" if r == z3.unsat else "unknown")
 
 
+def check_rule_table(case, plan, out):
+    """C01 on rule bodies, table form: constraints a predicate's rule puts on the parameters of every active GOAL of that predicate"""
+    fails, n = [], 0
+    table = case.get("rule_table")
+    g = out.graph
+    if not table or not g:
+        return fails, 0
+    goal_atoms = {f["data"]["atom"] for f in g["flaws"] if f["data"].get("type") == "goal"}
+    for a in plan.atoms:
+        if a["state"] != "Active" or a["id"] not in goal_atoms or a["predicate"] not in table:
+            continue
+        env = {p["name"]: plan.sol._value(p) for p in a["pars"]}
+        for c in table[a["predicate"]]:
+            try:
+                v = ev(c, env)
+            except (riddle.Unknown, KeyError, TypeError):
+                continue
+            n += 1
+            if v is not True:
+                fails.append(("C01", "rules/rule-constraint-" + ("false" if v is False else "undetermined") + "/" + a["predicate"], "active goal of %s: its rule demands %s but the solution has %s" % (a["predicate"], riddle.show(c), {k: str(x) for k, x in env.items() if k in ("start", "end", "duration", "at")})))
+    return fails, n
+
+
 def work(exes, family, start, n, owner):
     part = common.Partial()
     rnd = common.rng("PLAN", family, start)
@@ -472,8 +495,10 @@ def work(exes, family, start, n, owner):
             part.count("C03: in-plan flaws checked", nf)
             fails += f3
             f1, n1 = check_rules_c01(case, plan, out)
+            f1b, n1b = check_rule_table(case, plan, out)
+            n1 += n1b
             part.count("C01: rule constraints / sub-goal arguments evaluated", n1)
-            fails += f1
+            fails += f1 + f1b
             if "spec" in case and owner == "C01":
                 t = sx_truth(case["spec"], True)
                 part.count("sx: z3 ground truth (unification allowed) " + t)
